@@ -13,6 +13,8 @@ import (
 	"verifharness/walk"
 )
 
+var c13Recycled, c13CloneDst *simdjson.ParsedJson
+
 func init() { register("C13", runC13, replayC13) }
 
 var c13Snap *simdjson.ParsedJson
@@ -65,6 +67,25 @@ func (w *W) c13History(st *histState, g string, doc []byte, hseed int64, nops in
 				return nil
 			})
 			w.Count("histories_on_deserialized_documents", 1)
+		}
+	case hseed%5 == 0:
+		// the object the previous history of this kind edited, recycled for this document (by pointer:
+		// the parser stays attached): whatever the edits left behind in it says nothing about this one
+		w.setKernel(cfg.AVX512)
+		walk.Guard(func() error {
+			pj, err = simdjson.Parse(doc, c13Recycled, simdjson.WithCopyStrings(cfg.Copy))
+			return nil
+		})
+		c13Recycled = pj
+		w.Count("histories_on_a_recycled_edited_object", 1)
+	case hseed%5 == 1:
+		// a clone into the destination that held the previous history's edited document
+		var p *simdjson.ParsedJson
+		p, err, _ = w.parseGuarded(doc, cfg, false, false)
+		if err == nil {
+			pj = p.Clone(c13CloneDst)
+			c13CloneDst = pj
+			w.Count("histories_on_a_clone_into_a_recycled_edited_object", 1)
 		}
 	case r.Bool():
 		pj, err, _ = w.parseGuarded(doc, cfg, false, true)
